@@ -292,6 +292,21 @@ def run(chk):
             if final != expect:
                 chk.violation("content|a|several-handles", "%d append handles on one file, each write flushed: the file holds %r..., expected %r..." % (
                     nh, (final or b"")[:80], expect[:80]), {"src": next(c.src for c in mcases if c.id == cid)[-600:]})
+        # ---- a write that fails (wrong element kind, full device) leaves no trace in later writes on other handles
+        iso = []
+        good = os.path.join(work, "iso-good.bin")
+        for tag, failing in (("non-byte-element", ["write(open(%s, \"w\"), [byte(65), byte(66), 1]);" % lit(os.path.join(work, "iso-bad.bin"))]),
+                             ("non-byte-element-late", ["let bad = open(%s, \"w\"); write(bad, [byte(1), byte(2), byte(3), \"x\"]);" % lit(os.path.join(work, "iso-bad2.bin"))]),
+                             ("full-device", ["let fd = open(\"/dev/full\", \"w\"); write(fd, encode_utf8(\"q\" * 9000)); flush(fd);"]),
+                             ("full-device-string", ["let fs = open(\"/dev/full\", \"w\"); write(fs, \"q\" * 20000);"]),
+                             ("reader-handle", ["write(open(%s), [byte(9), byte(9)]);" % lit(good + ".src")]),
+                             ("wrong-kind", ["write(open(%s, \"a\"), map {1: 2});" % lit(os.path.join(work, "iso-bad3.bin"))])):
+            with open(good + ".src", "wb") as f:
+                f.write(b"source")
+            iso.append((tag, [], failing, ["let g = open(%s, \"w\"); puts(write(g, [byte(67), byte(68)])); puts(write(g, \"EF\")); puts(write(g, byte(71))); flush(g);" % lit(good),
+                                           "puts(read(open(%s)));" % lit(good), "let h = open(%s, \"a\"); write(h, encode_utf8(\"tail\")); flush(h); puts(len(read(open(%s))));" % (lit(good), lit(good))],
+                        [good]))
+        core.isolation_after_errors(chk, "write", iso)
         # ---- stdin through a pipe with write schedules (real binary)
         n_s = 60 if quick else 1500
         path = os.path.join(work, "s.p2")
